@@ -16,7 +16,7 @@ PROPERTY = "C13"
 RULE = (
     "E1 product enumeration via a real evaluator step in a Plan with a tracker: per variable (V=2, all 12x12 assignments) "
     "bound kind {both, lower only, upper only, none} x value position {below, at lower, inside, at upper, above}; "
-    "linear row 0 kind {eq, lower, upper, two-sided, unbounded} x position (15 settings, row 1 cycled); non-linear "
+    "linear row 0 kind {eq, lower, upper, two-sided, unbounded} x position (17 settings incl. values outside a bound by a relative 2^-20, row 1 cycled); non-linear "
     "constraint 0 kind x position (15 settings, constraint 1 cycled); transforms {none, variable+constraint+objective scalers, offsets-only variable scaler (thorough: also scales-only and a second set)}; "
     "tracker tolerance {1e-10, None, 0.0, 0.5}. Oracle: IEEE formulas value-lower, value-upper, max(lower-value, value-upper, 0); "
     "bound information present whenever any variable bound is finite; tracker holds the result iff all violations <= tol; for one tolerance the evaluation is repeated with the realization failing: the result without functions still reports exact bound and linear differences. "
@@ -26,14 +26,14 @@ ASSUMPTIONS = [
     "dyadic values; 1e-9 relative tolerance on differences (scalers introduce rounding)",
     "with transforms the tracker tolerance is only judged for tolerances (None, 0.0, 1e-10) where user- and optimizer-domain verdicts coincide",
 ]
-BOUNDS = {"quick": "144 variable settings x 15 linear x 15 non-linear x transforms on/off", "thorough": "same x second transform set x 3 tolerances"}
+BOUNDS = {"quick": "144 variable settings x 17 linear x 17 non-linear x transforms on/off", "thorough": "same x second transform set x 3 tolerances"}
 
 VAR_SETTINGS = []
 for kind, positions in (("both", 5), ("lower", 3), ("upper", 3), ("none", 1)):
     for pos in range(positions):
         VAR_SETTINGS.append((kind, pos))
 CON_SETTINGS = []
-for kind, positions in (("eq", 3), ("lower", 3), ("upper", 3), ("two", 5), ("free", 1)):
+for kind, positions in (("eq", 3), ("lower", 3), ("upper", 3), ("two", 5), ("free", 1), ("lower-near", 1), ("upper-near", 1)):
     for pos in range(positions):
         CON_SETTINGS.append((kind, pos))
 
@@ -63,6 +63,11 @@ def con_bounds(kind: str, pos: int, value: float) -> tuple[float, float]:
     if kind == "two":
         lb = [value + 2.0, value, value - 1.0, value - 4.0, value - 5.5][pos]
         return lb, lb + 4.0
+    # the value lies outside a finite bound by a relative 2**-20 only: a small but exact difference and violation
+    if kind == "lower-near":
+        return value + 2.0**-20 * (1.0 + abs(value)), np.inf
+    if kind == "upper-near":
+        return -np.inf, value - 2.0**-20 * (1.0 + abs(value))
     return -np.inf, np.inf
 
 
@@ -165,16 +170,27 @@ def judge(case: dict[str, Any]) -> Judgement:
     if tol == 1e-10:
         # the same evaluation with the realization failing: the result carries no functions, but it is a function result
         # and its bound and linear differences / violations are still reported - exactly
-        failing = TableEvaluator(lambda x, r: [float(x.sum()), t["nl"][0], t["nl"][1]], 1, 2, fail=lambda call, row, r, p: [0])
+        # (a batch of two copies of the point: the first row fails, the second is the ordinary evaluation)
+        failing = TableEvaluator(lambda x, r: [float(x.sum()), t["nl"][0], t["nl"][1]], 1, 2,
+                                 fail=lambda call, row, r, p: [0] if row == 0 else None)
         context2 = OptimizerContext(evaluator=failing, plugin_manager=manager)
         events2: list[Any] = []
         context2.add_observer(EventType.FINISHED_EVALUATION, events2.append)
         plan2 = Plan(context2)
         step2 = plan2.add_step("evaluator")
+        tracker2 = plan2.add_handler("tracker", what="last", constraint_tolerance=tol, sources={step2})
+        tracker3 = plan2.add_handler("tracker", what="best", constraint_tolerance=tol, sources={step2})
         cfg2, transforms2, _ = build(case)
+        batch = np.array([t["x"], t["x"]])
+        if transforms2 is not None and transforms2.variables is not None:
+            batch = transforms2.variables.to_optimizer(batch)
         try:
-            plan2.run_step(step2, config=cfg2, transforms=transforms2)
+            plan2.run_step(step2, config=cfg2, transforms=transforms2, variables=batch)
             failed_result = events2[0].data["results"][0]
+            # the row after the failed one is judged on its own violations
+            for what, handler in (("last", tracker2), ("best", tracker3)):
+                if (plan2.get(handler, "results") is not None) != all_feasible:
+                    j.fail(f"tracker-feasibility:row-after-a-failed-row:{what}", held=plan2.get(handler, "results") is not None, expected=all_feasible)
         except Exception as exc:  # noqa: BLE001
             j.fail(f"failed-evaluation-step-raised:{type(exc).__name__}", message=str(exc)[:200])
             failed_result = None
